@@ -51,6 +51,8 @@ class Target:
         self.anomalies = []
         self.faults = {}
         self.unsupported = set()  # command names this (still conformant) logical unit does not implement
+        self.granule = 1  # provisioning granularity in blocks: GET LBA STATUS answers with the whole granule that holds the LBA asked for
+        self.block_limits = None  # values of the Block Limits VPD page (B0h) when the unit has one
         self.n = 0
 
     # -- helpers ----------------------------------------------------------
@@ -82,6 +84,13 @@ class Target:
         self.log.append(rec)
         if idx in self.faults:
             rec["fault"] = self.faults[idx]
+            # (what was asked is recorded all the same, for monitors that compare it with the caller's arguments)
+            if cdb:
+                _sa = cdb[1] & 0x1F if cdb[0] in (0x9E, 0xA3) and len(cdb) > 1 else None
+                _c = BY_OP.get((cdb[0], _sa))
+                if _c is not None and len(cdb) == _c.length:
+                    rec["name"] = _c.name
+                    rec["fields"] = {k: R.get(cdb, *pos) for k, pos in _c.fields.items()}
             return self.faults[idx]
         if not cdb:
             return self.illegal("empty CDB", 0x20)
@@ -131,7 +140,14 @@ class Target:
                 return GOOD, None
             hdr = bytes([(self.qualifier << 5) | self.devtype, f["page_code"]])
             if f["page_code"] == 0x00:
-                body = bytes([0x00, 0x80, 0x83])
+                body = bytes([0x00, 0x80, 0x83] + ([0xB0] if self.block_limits else []))
+            elif f["page_code"] == 0xB0 and self.block_limits:
+                fm = D.FORMATS["inquiry.vpdb0"]
+                v = {k: 0 for k in fm.body.names()}
+                v.update(self.block_limits)
+                v.update({"peripheral_qualifier": self.qualifier, "peripheral_device_type": self.devtype, "page_code": 0xB0})
+                put(fm.encode(v))
+                return GOOD, None
             elif f["page_code"] == 0x80:
                 body = b"VMON%08d" % 1234
             elif f["page_code"] == 0x83:
@@ -153,7 +169,11 @@ class Target:
             put(bytes(R.be(self.nblocks - 1, 8)) + bytes(R.be(self.bs, 4)) + bytes(20))
             return GOOD, None
         if name == "GetLBAStatus":
-            body = bytes(R.be(f["lba"], 8)) + bytes(R.be(1, 4)) + bytes([0 if f["lba"] in self.store else 1, 0, 0, 0])
+            g = max(1, self.granule)
+            start = f["lba"] - f["lba"] % g  # SBC: the first descriptor contains the starting LBA (it need not begin there)
+            body = bytes(R.be(start, 8)) + bytes(R.be(min(g, self.nblocks - start) if start < self.nblocks else 1, 4)) + bytes([0 if f["lba"] in self.store else 1, 0, 0, 0])
+            if g > 1 and start + g < self.nblocks:
+                body += bytes(R.be(start + g, 8)) + bytes(R.be(g, 4)) + bytes([1, 0, 0, 0])
             put(bytes(R.be(4 + len(body), 4)) + bytes(4) + body)
             return GOOD, None
         if name.startswith("Synchronize"):
